@@ -5,6 +5,7 @@ CONTRACT_MODULES = ["contracts.table_cache", "contracts.table_setitem"]
 FUNCTIONS = ["Table._make_cache", "Table._get_cache", "Table._get_row_cache", "Table._get_row_cache_raise", "Table.__setitem__", "Table._append_row", "Table._concatenate_table", "Table.__delitem__", "Table.pop"]
 RAC = "rac/c07.py"
 RAC_BUDGET = {"quick": 60, "thorough": 900}
+RAC_MIN = {"quick": 8400, "thorough": 8400}      # fewer run-time evaluations than this = the harness skipped its work: checker broken, not "held"
 DESIGN_REF = "DESIGN.md section 4, C07"
 TECHNIQUE = ("contract-based deductive verification of the row-name cache (pyvc: _make_cache builds exactly the scan of the "
              "current index column, _get_cache keeps the class invariant CacheOK, _get_row_cache(_raise) return the scan "
